@@ -356,8 +356,12 @@ class NetworkXPropertyGraph(ABCPropertyGraph, NetworkXMixin):
         :return:
         """
         assert new_graph_id is not None
-        new_graph = self.storage.extract_graph(self.graph_id).copy()
-        self.storage.add_graph(new_graph_id, new_graph)
+        new_graph = self.storage.extract_graph(self.graph_id)
+        if new_graph is None or len(new_graph.nodes) == 0:
+            # as the generic ABCPropertyGraph.clone_graph does for a graph that cannot be found
+            raise PropertyGraphQueryException(graph_id=self.graph_id, node_id=None,
+                                              msg=f"Unable to find graph with id {self.graph_id} for cloning")
+        self.storage.add_graph(new_graph_id, new_graph.copy())
         return NetworkXPropertyGraph(graph_id=new_graph_id, importer=self.importer, logger=self.log)
 
     def serialize_graph(self, format: GraphFormat = GraphFormat.GRAPHML) -> str:
